@@ -169,7 +169,7 @@ def check_bed(res, kind, exons, strand, cds, window, chrom_mode, menu, N, order=
     got_blocks = [(b["start"] + s, b["start"] + s + z) for s, z in zip(b["starts"], b["sizes"])]
     if got_blocks != exp_blocks:
         probs.append("decoded blocks differ")
-    if b["start"] != exp_blocks[0][0] or b["end"] != exp_blocks[-1][1]:
+    if b["start"] != exp_blocks[0][0] or b["end"] != max(e for _, e in exp_blocks):
         probs.append("start/end differ")
     if b["strand"] != strand:
         probs.append("strand")
@@ -256,6 +256,16 @@ def run_shard(shard):
                             for other in {(0, N), (max(win[0] - 1, 0), win[1]), (win[0], min(win[1] + 1, N))} - {win}:
                                 check_bed(res, "feat", exons, strand, None, win, chrom_mode, menu, N, shared=other)
                                 check_bed(res, "tx", exons, strand, placements[-1], win, chrom_mode, menu, N, shared=other)
+    # "any transcript or feature": also one whose blocks OVERLAP (the library's own way of writing a -1 frameshift) or nest
+    for idx, exons in enumerate(worlds.layouts(N, 2, "overlap")):
+        if idx % NSH != shard["i"] or len(exons) < 2 or any(e <= s_ for s_, e in exons) or len({s_ for s_, _ in exons}) < len(exons):
+            continue  # (no zero-length blocks; blocks sharing a start are ordered by the strand-dependent tie-break of known finding C03-same-start-revstrand)
+        lo, hi = exons[0][0], max(e for _, e in exons)
+        for strand in "+-":
+            for win in (None, "chrom", (0, N), (lo, hi)):
+                for chrom_mode in (True, False):
+                    check_bed(res, "feat", exons, strand, None, win, chrom_mode, MENUS[0], N)
+                    check_bed(res, "tx", exons, strand, None, win, chrom_mode, MENUS[0], N)
     res.sample({"exons": [[1, 3], [4, 6]], "strand": "-", "cds": [1, 3], "window": [0, 7], "chrom_mode": False})
     return res
 
@@ -277,4 +287,15 @@ def _m_noncoding_thick_zero(d):
     return len(cols) == 12 and cols[6] == "0" and cols[7] == "0" and int(cols[1]) > 0 and (d["case"]["kind"] == "feat" or not d["case"]["cds"])
 
 
-MATCHERS = {"c14_noncoding_thick_zero": _m_noncoding_thick_zero}
+def _m_nested_block_last(d):
+    """an interval with a block NESTED in an earlier one so that the block that sorts last is not the one that ends last:
+    the record's chromEnd is the largest end, but the last block (by start) ends before it, so 'last blockStart + last
+    blockSize == chromEnd - chromStart' fails (BED12 cannot say that the last block ends inside the span)"""
+    ex = sorted(tuple(b) for b in d["case"]["exons"])
+    if len(ex) < 2 or ex[-1][1] >= max(e for _, e in ex):
+        return False
+    rest = [p for p in (d.get("problems") or []) if p != "noncoding-thick-outside [start,end]"]
+    return rest == ["last start + last size != end - start"] and d.get("got_blocks") == d.get("exp_blocks")
+
+
+MATCHERS = {"c14_noncoding_thick_zero": _m_noncoding_thick_zero, "c14_nested_block_last": _m_nested_block_last}
